@@ -5,6 +5,15 @@ V = os.path.dirname(os.path.dirname(os.path.abspath(__file__)))
 PY = "/venv/bin/python"
 
 CHECKS = {
+ "C01": dict(engine="E1", technique="exhaustive enumeration of selector pairs x probe configurations on a small recording, plus all 65536 sample values per gain class",
+             text="63 configurations (8 probe kinds + nidq, both metadata encodings, sorted/unsorted, bin/cbin, AP/LF, non-identity site order, non-uniform gains) x every int / slice (start, stop in [-n-1, n+1], steps +-1..3) / list selector pair of a 4-sample recording are read through the real Reader and compared with NumPy indexing of the reference calibrated, permuted array; thorough runs the full product (98M reads), quick the full x core and core x full products on primary configurations.",
+             note="layout decided with one separating content (the gather does not branch on values); values decided by running all 65536 int16 values through every gain class; 1.5 float32 ulp tolerance", ref="3/C01"),
+ "C08": dict(engine="E1", technique="exhaustive enumeration of ordered site selections from a sub-grid in both metadata encodings, whole probe grids and dense layouts",
+             text="Every ordered selection of 3 (4) sites out of a 16-site sub-grid for NP1, NP2.1, NP2.4 and NPultra is written in both metadata encodings and read sorted and unsorted; sites, permutation, order, joint permutation of all attributes, x/y, ADC tables, encoding agreement and split-shank restriction are compared with an independent model. Whole grids and all dense layouts and 384-site rotations are covered too.",
+             note="non-prefix saved-channel subsets not covered (no anchor for an oracle); NPultra shank-map encoding only", ref="3/C08"),
+ "C09": dict(engine="E1", technique="exhaustive enumeration of all metadata values up to a length bound over a 9-symbol alphabet; all IMRO gain pairs x probe kinds x counts",
+             text="Every value string of length <=5 (6) over {0,7,.,comma,a,=,~,-,space} in three file forms is parsed, written and parsed again; decimal scalars m x 10^e for e in -10..22 likewise; derived quantities (version, stream, counts, fs, ns, volts-per-bit) are compared with an independent reading for every kind x stream x saved count x all 64 gain pairs and every nidq channel layout.",
+             note="numeric-looking values that are neither scalars nor integer lists are outside the property's domain and skipped", ref="3/C09"),
  "C11": dict(engine="E1", technique="exhaustive enumeration of writer truncation points (every file length) x metadata claims x readers, run on the real Reader",
              text="Every file length from one frame up (every count of trailing bytes of a partial frame) for 2/5/385-channel files, crossed with what the metadata claims, four sampling rates and both reader classes, is opened with the real reader and compared with the file's own prefix. Bounded exhaustive: nothing is sampled inside the box.",
              note="content is a fixed byte ramp; compressed case realised as .ch/.meta disagreement; box sizes in evidence", ref="3/C11"),
